@@ -28,7 +28,8 @@ class Family:
 
 class PairHarness:
     def __init__(self, fam, task):
-        self.fam = fam; self.n1name, self.sh1, self.n2name, self.sh2 = task
+        self.fam = fam; self.n1name, self.sh1, self.n2name, self.sh2 = task[:4]
+        self.ctxname = task[4] if len(task) > 4 else "file"
 
     def run(self, ex):
         fam = self.fam; kit = fam.kit; comp = fam.comp
@@ -63,11 +64,23 @@ class PairHarness:
         B = part(n1, n)
         if comp.has_error(B):
             return "vacuous"
-        W = part(0, n)
-        comp.ctxname = "file"; comp.k = n1
-        if comp.has_error(W):
-            raise Violation("both statements parse without diagnostics but their sequence reports: " + "; ".join(str(s[1]) for s in W if s[0] == "error")[:160])
-        comp.compare(ex, comp.body(A) + comp.body(B), comp.body(W))
+        comp.ctxname = self.ctxname; comp.k = n1
+        if self.ctxname == "file":
+            W = part(0, n)
+            got = None if comp.has_error(W) else comp.body(W)
+        else:
+            from .h_c16 import CONTEXTS
+            K = kit.K
+            pre, suf = CONTEXTS[self.ctxname]
+            P = len(pre)
+            wt = [K[x] for x in pre] + list(toks) + [K[x] for x in suf]
+            e = (j.e & z3.BitVecVal((1 << n) - 1, 64)) << P
+            inp = [VecV(wt), VecV([SV(z3.simplify(e), 64)])]
+            W = kit.decode(ex.call("TopEntryPoint::parse", [Ref([0], 0), Ref([inp], 0)]))
+            got = None if comp.has_error(W) else comp.inner_block(W, P, n)
+        if got is None:
+            raise Violation(f"both statements parse without diagnostics but their sequence ({self.ctxname} context) reports: " + "; ".join(str(s[1]) for s in W if s[0] == "error")[:160])
+        comp.compare(ex, comp.body(A) + comp.body(B), got)
         return "checked"
 
     def describe(self, ex, outcome, detail):
@@ -79,12 +92,12 @@ class PairHarness:
         ks = [t if isinstance(t, int) else model.get(t.e.decl().name(), kit.K["IDENT"]) for t in toks]
         jw = model.get("joint0", 0)
         js = [(jw >> i) & 1 for i in range(len(ks))]
-        site = f"{outcome}|pair|{re.sub(r'split [0-9]+', 'split', detail['msg'])[:200]}"
+        site = f"{outcome}|pair-{self.ctxname}|{re.sub(r'split [0-9]+', 'split', detail['msg'])[:200]}"
         kid = None
         if outcome in ("violation", "panic", "stuck") and toks:
             env = PEnv(kit, toks).env(); env["k"] = self.n1
-            kid = findings.match_known(ex, fam.known, re.sub(r"\|pair\|", "|file|", site), env)
-        return ("fail", outcome, site, ks, js, kid, getattr(self, "n1", 0), f"{self.n1name} ; {self.n2name}")
+            kid = findings.match_known(ex, fam.known, re.sub(r"\|pair-(\w+)\|", r"|\1|", site), env)
+        return ("fail", outcome, site, ks, js, kid, getattr(self, "n1", 0), f"{self.n1name} ; {self.n2name}", self.ctxname)
 
 
 def famfactory(known, seed):
@@ -107,7 +120,7 @@ def build_tasks(quick):
     # extending the previous expression would go wrong)
     sts += [("paren_stmt", ("L_PAREN", "IDENT", "R_PAREN", "SEMICOLON")), ("neg_stmt", ("MINUS", "IDENT", "SEMICOLON")), ("not_stmt", ("BANG", "IDENT", "SEMICOLON")),
             ("index_like_stmt", ("L_BRACK", "INT_NUMBER", "R_BRACK", "SEMICOLON")), ("block_stmt_nonempty", ("L_CURLY", "IDENT", "SEMICOLON", "R_CURLY")),
-            ("call_stmt", ("IDENT", "L_PAREN", "IDENT", "R_PAREN", "SEMICOLON")), ("plus_stmt", ("PLUS", "IDENT", "SEMICOLON"))]
+            ("call_stmt", ("IDENT", "L_PAREN", "IDENT", "R_PAREN", "SEMICOLON")), ("plus_stmt", ("PLUS", "IDENT", "SEMICOLON")), ("empty_stmt", ("SEMICOLON",))]
     # second statements: one representative per distinct leading token (quick) / all (thorough)
     seen = set(); reps = []
     for name, sh in sts:
@@ -117,7 +130,13 @@ def build_tasks(quick):
             seen.add(key); reps.append((name, sh))
     seconds = reps if quick else sts
     firsts = reps if quick else sts
-    return [(a[0], a[1], b[0], b[1]) for a in firsts for b in seconds]
+    tasks = [(a[0], a[1], b[0], b[1]) for a in firsts for b in seconds]
+    # block contexts: every first statement that may stand in a block, followed by the boundary-sensitive second statements
+    boundary = [x for x in sts if x[0] in ("empty_stmt", "paren_stmt", "neg_stmt", "index_like_stmt", "block_stmt_nonempty", "call_stmt", "decl", "break", "assign<atom>", "gatecall_q", "if_emptyblock")]
+    inblock = [x for x in (reps if quick else sts) if not x[0].startswith(("gate_", "def", "extern", "qubit", "qreg", "creg", "io", "version", "include", "pragma", "annotation", "const_decl"))]
+    for c in (("gate",) if quick else ("gate", "def", "if", "while", "for", "case")):
+        tasks += [(a[0], a[1], b[0], b[1], c) for a in inblock for b in boundary]
+    return tasks
 
 
 def run_pairs(ctx, res):
@@ -156,7 +175,7 @@ def run_pairs(ctx, res):
             continue
         rep = None
         for e in info["examples"]:
-            bad, msg = native_compositional(kit, e[3], e[4], e[6], "file")
+            bad, msg = native_compositional(kit, e[3], e[4], e[6], e[8] if len(e) > 8 else "file")
             if bad:
                 rep = (e, msg); break
         if rep is None:
@@ -171,7 +190,7 @@ def run_pairs(ctx, res):
             continue
         what = {"site": site[:300], "paths": info["count"], "pair": e[7], "tokens": names_of(kit, e[3]), "joint": e[4], "split": e[6], "native": msg[:300], "source_text": kit.render(e[3], e[4])}
         rp = os.path.join(ctx.replay_dir, "pair_" + hashlib.sha1((site + e[7]).encode()).hexdigest()[:10] + ".json")
-        json.dump({"property": "C16", "ks": e[3], "js": e[4], "k": e[6], "ctx": "file", "what": what}, open(rp, "w"), indent=1)
+        json.dump({"property": "C16", "ks": e[3], "js": e[4], "k": e[6], "ctx": e[8] if len(e) > 8 else "file", "what": what}, open(rp, "w"), indent=1)
         res.violations.append({"what": json.dumps(what), "replay": rp})
         res.samples.append(what)
     res.bounds["statement_pairs"] = f"{len(tasks)} ordered pairs of statement skeletons (<= 14 tokens each, expression depth 0; operator statements with every spelling)"
